@@ -28,6 +28,49 @@ pub fn run(rep: &mut Report, thorough: bool) {
             let d = unrank(i, &dims);
             flow(d[1] == 1, d[2] as u16, 3478).udp(&sel[d[0] as usize].bytes)
         });
+        // pairs of header fields: two departures within one frame (e.g. IPv4 options together
+        // with TCP options, a flag set together with a data offset), every reply judged by the
+        // reference model and the well-formedness invariants
+        {
+            let base = base_frames(&cookies);
+            let mut items: Vec<(usize, Vec<u8>)> = Vec::new();
+            let reduce = |v: Vec<u32>, n: usize| -> Vec<u32> { if v.len() > n { v.iter().cloned().step_by(v.len().div_ceil(n)).collect() } else { v } };
+            for (bi, b) in base.iter().enumerate() {
+                if !thorough && bi % 3 != 0 {
+                    continue;
+                }
+                let fields = crate::deviate::header_fields(&b.frame);
+                for (x, fa) in fields.iter().enumerate() {
+                    for a in reduce(crate::deviate::field_values(fa), if thorough { 16 } else { 8 }) {
+                        for fb in fields.iter().skip(x + 1) {
+                            for bv in reduce(crate::deviate::field_values(fb), if thorough { 12 } else { 6 }) {
+                                let mut f2 = b.frame.clone();
+                                crate::deviate::set_field(&mut f2, fa, a);
+                                crate::deviate::set_field(&mut f2, fb, bv);
+                                items.push((bi, f2));
+                            }
+                        }
+                    }
+                }
+            }
+            let t0 = std::time::Instant::now();
+            let stage = format!("header-field-pairs-{}", tag);
+            let opts = RunOpts::new(&stage).stateful().chunk(128);
+            engine::run(
+                &cfg,
+                items.len() as u64,
+                &opts,
+                |i| {
+                    let (bi, fr) = &items[i as usize];
+                    let mut c: Vec<Cmd> = base[*bi].prelude.iter().map(|f| Cmd::Frame(f.clone())).collect();
+                    c.push(Cmd::Frame(fr.clone()));
+                    c
+                },
+                |_it: &Item, _s: &mut Sink| {},
+                &mut rep.sink,
+            );
+            rep.stage(&stage, "base frames x every pair of L2-L4 header fields x reduced value sets (two departures in one frame), monitored", items.len() as u64, t0);
+        }
         // address alphabets (pseudo-header inputs): every reply kind x client / server address
         // alphabets incl. unspecified, broadcast, multicast, loopback
         {
